@@ -1,6 +1,8 @@
 package main
 
 import (
+	"syscall"
+	"context"
 	"bytes"
 	"encoding/json"
 	"fmt"
@@ -29,6 +31,7 @@ type c07Desc struct {
 	Ext     [][][]string `json:"extension_programs"` // per extension, per faulty generation
 	Delays  map[string]int `json:"hook_delay_ms"`
 	T       int64      `json:"timeout_ms"`
+	EventKB int        `json:"event_kib,omitempty"` // pad every event to this size (needed by the step next-noread)
 }
 
 var c07RtSteps = []string{"next", "next", "next", "respond", "respond", "respond-stale", "respond-garbage", "respond-twice", "respond-oversize", "error", "error-badtype", "initerror", "restorenext", "two-next", "half-body", "half-body-stall", "unknown-route", "bad-method", "ext-register", "stall", "short-stall", "exit0", "exit1", "sigsegv", "ignore-term"}
@@ -69,7 +72,37 @@ func genC07(tier string, seed int64) []Case {
 		dd := d
 		cases = append(cases, Case{ID: "C07/" + d.Salt, Class: fmt.Sprintf("n%d", d.NExt), Desc: d, Timeout: 150 * time.Second, Run: func(c *Ctx) { runC07(c, dd) }})
 	}
+	// a client that asks for the (large) event again on a second connection and never reads the answer
+	for i, progs := range [][][]string{
+		{{"next", "next-noread", "stall"}, {"next", "respond"}, {"next", "respond"}},
+		{{"next", "next-noread", "respond", "next", "respond"}, {"next", "respond"}, {"next", "respond"}},
+		{{"next", "next-noread", "exit1"}, {"next", "next-noread", "respond", "next", "respond"}, {"next", "respond"}},
+	} {
+		d := c07Desc{Salt: fmt.Sprintf("noread-%d", i), NExt: i % 2, Faulty: 3, T: 400, Delays: map[string]int{}, Rt: progs, EventKB: 6100}
+		for e := 0; e < d.NExt; e++ {
+			d.Ext = append(d.Ext, [][]string{{"register", "next", "next"}, {"register", "next", "next"}, {"register", "next", "next"}})
+		}
+		dd := d
+		cases = append(cases, Case{ID: "C07/" + d.Salt, Class: "noread", Desc: d, Timeout: 200 * time.Second, Run: func(c *Ctx) { runC07(c, dd) }})
+	}
 	return cases
+}
+
+// rawNoRead sends a GET on a fresh connection whose receive window is tiny and never reads the answer; the
+// connection is closed when the owning process dies.
+func rawNoRead(ctx context.Context, addr, path string) {
+	d := net.Dialer{Timeout: time.Second, Control: func(network, address string, rc syscall.RawConn) error {
+		return rc.Control(func(fd uintptr) { syscall.SetsockoptInt(int(fd), syscall.SOL_SOCKET, syscall.SO_RCVBUF, 2048) })
+	}}
+	conn, err := d.Dial("tcp", addr)
+	if err != nil {
+		return
+	}
+	fmt.Fprintf(conn, "GET %s HTTP/1.1\r\nHost: x\r\n\r\n", path)
+	go func() {
+		<-ctx.Done()
+		conn.Close()
+	}()
 }
 
 func rawHalfBody(addr, path string) {
@@ -237,6 +270,10 @@ func runC07(c *Ctx, d c07Desc) {
 							id = staleID
 						}
 						rawHalfBody(w.E.Addr, "/2018-06-01/runtime/invocation/"+id+"/response")
+					case "next-noread":
+						fault(p, s)
+						rawNoRead(p.Ctx, w.E.Addr, "/2018-06-01/runtime/invocation/next")
+						time.Sleep(20 * time.Millisecond)
 					case "half-body-stall":
 						// a legal response for the current id whose upload stops half-way and stays open until the process dies
 						fault(p, s)
@@ -433,6 +470,9 @@ func runC07(c *Ctx, d c07Desc) {
 	consecutiveOK := 0
 	for i := 0; i < 16 && consecutiveOK < 3; i++ {
 		payload := []byte(fmt.Sprintf("event-%s-%d", d.Salt, i))
+		if d.EventKB > 0 {
+			payload = append(payload, bytes.Repeat([]byte{'.'}, d.EventKB*1024-len(payload))...)
+		}
 		inv := w.E.InvokeAsync(payload, vh.InvokeOpts{})
 		if !inv.Wait(bound + 12*time.Second) {
 			c.Check(false, "every_invocation_answered", "C07/wedge", fmt.Sprintf("invocation %d was never answered", i), nil)
